@@ -19,9 +19,14 @@ Inductive round :=
 | RoundIncr (init final : Z) (acks : list ack) (errors : nat)
 | RoundSetnx (oks : list Z) (nils : nat) (errors : nat) (final : option Z).
 
-Definition case := round.
+(** [Embedded]: rounds run by the harness against the gateway with the embedded
+    backend. [Raft]: observations of the raft-backed backend (backend_raft.go
+    driven by the reproduction test corpus/C30/f26_raft_backend_test.go.txt);
+    a lost update there is known finding C30-F26 (class 2). *)
+Inductive deployment := Embedded | Raft.
+Record case := { c_dep : deployment; c_round : round }.
 
-Definition check (c : case) : verdict :=
+Definition check_round (c : round) (known : N) : verdict :=
   match c with
   | RoundIncr init final acks _ =>
       (* with positive deltas the values only grow, so the chain is unique and the greedy search is complete;
@@ -29,20 +34,28 @@ Definition check (c : case) : verdict :=
       mk_verdict (negb (if forallb (fun a => (0 <? fst a)%Z) acks
                         then serial_chain (S (List.length acks)) init final acks
                         else counter_ok_b init final acks))
-                 (negb (counter_ok_b init final acks)) 0
+                 (negb (counter_ok_b init final acks)) known
   | RoundSetnx oks _ _ final =>
       mk_verdict (negb (match oks, final with
                         | [w], Some f => Z.eqb w f
                         | [], None => true
                         | _, _ => false
                         end))
-                 (negb (setnx_ok_b (List.length oks))) 0
+                 (negb (setnx_ok_b (List.length oks))) known
   end.
 
 Definition K (d v : Z) : ack := (d, v).
 Definition ZZ (z : Z) : Z := z.
 Definition SomeZ (z : Z) : option Z := Some z.
 Definition NoneZ : option Z := None.
-Definition RI (init final : Z) (acks : list ack) (errors : N) : case := RoundIncr init final acks (N.to_nat errors).
+Definition check (c : case) : verdict :=
+  check_round (c_round c) (match c_dep c with Embedded => 0%N | Raft => 2%N end).
+
+Definition RI (init final : Z) (acks : list ack) (errors : N) : case :=
+  {| c_dep := Embedded; c_round := RoundIncr init final acks (N.to_nat errors) |}.
 Definition RS (oks : list Z) (nils errors : N) (final : option Z) : case :=
-  RoundSetnx oks (N.to_nat nils) (N.to_nat errors) final.
+  {| c_dep := Embedded; c_round := RoundSetnx oks (N.to_nat nils) (N.to_nat errors) final |}.
+Definition RIraft (init final : Z) (acks : list ack) (errors : N) : case :=
+  {| c_dep := Raft; c_round := RoundIncr init final acks (N.to_nat errors) |}.
+Definition RSraft (oks : list Z) (nils errors : N) (final : option Z) : case :=
+  {| c_dep := Raft; c_round := RoundSetnx oks (N.to_nat nils) (N.to_nat errors) final |}.
